@@ -93,5 +93,6 @@ pub fn render_def(def: &DefIn) -> String {
         }
     }
     out.push_str("}\n");
-    out
+    // callbacks that must name the enum (nested fn items cannot use `Self`)
+    out.replace("@E@", &name)
 }
